@@ -20,7 +20,7 @@ import Driver.Util
       pback r|d            parse the reference text back: same COUNT | diff .. | null:ERRNO:FATAL | ub:..
       pcli q|Q             the "-- Target nodes --" line of opt_list (1024-byte buffer)
       pxlist               list_push_hostlist: the text, or `diverge`
-      pranges s|p          hostlist_shift_range / hostlist_pop_range until NULL: HEX|HEX|.. or none
+      pranges s|p|n        hostlist_shift_range / hostlist_pop_range / hostlist_next_range until NULL: HEX|HEX|.. or none
 -/
 namespace Driver.PrintDrv
 open PdshVerif PdshVerif.Hostlist PdshVerif.Hostlist.Print
@@ -145,6 +145,12 @@ def step (st : St) (line : String) : St × String :=
         match firstDiff h.hosts want 0 with
         | none => (st, s!"same {want.length}")
         | some i => (st, s!"diff {i} {h.hosts.length} {want.length}")
+  | ["pranges", "n"] | ["pranges", "N"] =>
+    -- hostlist_next_range on a fresh iterator until NULL (the list itself, nothing is moved)
+    let outs := (nextRangeCalls (st.rs.length + 1) st.rs).map fun b =>
+      let oob := b.oob RANGEBUF
+      Hex.encodeChars (content b RANGEBUF).1 ++ (if oob.isEmpty then "" else "!oob")
+    (st, if outs.isEmpty then "none" else "|".intercalate outs)
   | ["pranges", which] =>
     -- hostlist_shift_range / hostlist_pop_range until NULL: the strings they return, `|`-separated
     -- on the list re-built with hostlist_push_range (joinable neighbours joined), as the harness does
